@@ -17,6 +17,12 @@ local macro "c19_fin" : tactic => `(tactic|
    simp [*, validateSpec, Effective.obs, crlSpec_init, ocspSpec_empty, initCrlEff] <;>
    (repeat' split) <;> simp_all [Effective.obs, crlSpec_init, ocspSpec_empty, initCrlEff]))
 
+/-- **Caddyfile = JSON.** For all settings `c` (any subset of the eleven options, any values valid or not, lists of any
+length) and any environment, loading the Caddyfile rendering (`UnmarshalCaddyfile` + `Provision`) and loading the JSON
+form (`json.Unmarshal` + `Provision`) end in the same class (ok / error / panic) and, when ok, in the same validator.
+`Effective.obs` compares the CRL part only when the mode enables CRL checking: without a `crl_config` JSON leaves
+`CRLConfig` nil while the Caddyfile path leaves a default struct; in that situation both fail validation if CRL
+checking is on, and nothing reads the struct if it is off (C03 `verify_consulted`, `crlProvisionIfEnabled`). -/
 theorem caddyfile_eq_json (env : Env) (c : Cfg) :
     (loadCaddyfile Fx env (renderCaddyfile c)).map (Effective.obs crlEnabled) =
     (loadJSON L env (jsonOf c)).map (Effective.obs crlEnabled) := by
@@ -74,18 +80,20 @@ theorem loadCaddyfile_ok_iff (env : Env) (c : Cfg) (e : Effective) :
 in a loaded validator an omitted option (empty string / absent block) has the documented default, a given
 one its parsed value; the strict flags are the configured booleans. -/
 theorem loaded_documented (env : Env) (raw : RawCfg) (e : Effective) (h : Loaded env raw e) :
-    (raw.mode = "" → e.mode = .preferOCSP) ∧
+    parseMode raw.mode = some e.mode ∧ (raw.mode = "" → e.mode = .preferOCSP) ∧
     (∀ c, raw.crl = some c → ∃ ec, e.crl = some ec ∧
         ec.workDir = c.workDir ∧ ec.urls = c.urls ∧ ec.files = c.files ∧ ec.signers = c.signers ∧
-        (c.storage = "" → ec.storage = .disk) ∧
-        (c.interval = "" → ec.intervalNs = 30 * 60 * 1000000000) ∧
-        (c.sigMode = "" → ec.sigMode = .verify) ∧
+        parseStorageType c.storage = some ec.storage ∧ (c.storage = "" → ec.storage = .disk) ∧
+        (c.interval ≠ "" → env.dur c.interval = some ec.intervalNs) ∧
+        (c.interval = "" → ec.intervalNs = 30 * 60 * 1000000000) ∧ 0 < ec.intervalNs ∧
+        parseSignatureValidationMode c.sigMode = some ec.sigMode ∧ (c.sigMode = "" → ec.sigMode = .verify) ∧
         (c.cdp = none → ec.cdp = some ⟨.actively, false⟩) ∧
-        (∀ d, c.cdp = some d → ∃ m, ec.cdp = some ⟨m, d.strict⟩ ∧ (d.fetchMode = "" → m = .actively))) ∧
+        (∀ d, c.cdp = some d → ∃ m, ec.cdp = some ⟨m, d.strict⟩ ∧ parseCRLFetchMode d.fetchMode = some m ∧
+          (d.fetchMode = "" → m = .actively))) ∧
     (raw.ocsp = none → e.ocsp = some ⟨0, [], false⟩) ∧
     (∀ o, raw.ocsp = some o → ∃ eo, e.ocsp = some eo ∧ eo.responders = o.responders ∧ eo.aiaStrict = o.aiaStrict ∧
-        (o.cacheDuration = "" → eo.cacheNs = 0)) := by
-  refine ⟨?_, ?_, ?_, ?_⟩
+        (o.cacheDuration ≠ "" → env.dur o.cacheDuration = some eo.cacheNs) ∧ (o.cacheDuration = "" → eo.cacheNs = 0)) := by
+  refine ⟨h.mode, ?_, ?_, ?_, ?_⟩
   · intro hm
     have := h.mode
     rw [hm] at this
@@ -95,8 +103,11 @@ theorem loaded_documented (env : Env) (raw : RawCfg) (e : Effective) (h : Loaded
     rw [hc] at this
     obtain ⟨ec, h1, h2⟩ := this
     obtain ⟨a1, a2, a3, a4, a5, a6, a7, _, a9⟩ := crlSpec_ok env c ec h2
-    refine ⟨ec, h1, a1, a2, a3, a4, ?_, ?_, ?_, ?_, ?_⟩
+    refine ⟨ec, h1, a1, a2, a3, a4, a6, ?_, ?_, ?_, crlSpec_interval_pos env c ec h2, a5, ?_, ?_, ?_⟩
     · intro hs; rw [hs] at a6; exact (Option.some.inj a6).symm
+    · intro hs; rcases a7 with ⟨h, _⟩ | ⟨_, h, _⟩
+      · exact absurd h hs
+      · exact h
     · intro hs; rcases a7 with ⟨_, h⟩ | ⟨h, _⟩
       · rw [h]; rfl
       · exact absurd hs h
@@ -104,7 +115,7 @@ theorem loaded_documented (env : Env) (raw : RawCfg) (e : Effective) (h : Loaded
     · intro hn; rw [hn] at a9; exact a9
     · intro d hd; rw [hd] at a9
       obtain ⟨m, hm, hcdp⟩ := a9
-      refine ⟨m, hcdp, ?_⟩
+      refine ⟨m, hcdp, hm, ?_⟩
       intro hs; rw [hs] at hm; exact (Option.some.inj hm).symm
   · intro hn
     have := h.ocsp
@@ -115,10 +126,13 @@ theorem loaded_documented (env : Env) (raw : RawCfg) (e : Effective) (h : Loaded
     rw [ho] at this
     obtain ⟨eo, h1, h2⟩ := this
     obtain ⟨a1, a2, a3, _⟩ := ocspSpec_ok env o eo h2
-    refine ⟨eo, h1, a1, a2, ?_⟩
-    intro hs; rcases a3 with ⟨_, h⟩ | ⟨h, _⟩
-    · exact h
-    · exact absurd hs h
+    refine ⟨eo, h1, a1, a2, ?_, ?_⟩
+    · intro hs; rcases a3 with ⟨h, _⟩ | ⟨_, h⟩
+      · exact absurd h hs
+      · exact h
+    · intro hs; rcases a3 with ⟨_, h⟩ | ⟨h, _⟩
+      · exact h
+      · exact absurd hs h
 
 
 /-! ### Invalid values are rejected (never ignored) -/
@@ -304,21 +318,13 @@ theorem crl_urls_append_in_order (l : List String) (s : RawCrl) :
 
 /-! ### Every valid combination provisions -/
 
-/-
-Full statement of the property's last clause (NOT provable on the current tree, see
-`nonpositive_interval_panics`):
-
-  theorem provision_ok (env raw m) (hm : parseMode raw.mode = some m)
-      (hcrl : ∀ c, raw.crl = some c → ValidCrl env c) (hocsp : ∀ o, raw.ocsp = some o → ValidOcsp env o)
-      (hready : crlEnabled m = true → CrlReady env raw) : (loadJSON L env raw).isOk
-
-What is missing: `update_interval` values `time.ParseDuration` accepts but that are ≤ 0 ("0s", "-5m")
-reach `time.NewTicker` in crl.Provision, which panics.
--/
-theorem provision_ok_partial (env : Env) (raw : RawCfg) (m : Mode) (hm : parseMode raw.mode = some m)
+/-- **Every valid combination provisions** (JSON): the mode string is a documented one, every given value is valid
+(`ValidCrl`: enum strings, a parsable and positive update interval, readable signer certificates; `ValidOcsp`), and —
+when the mode enables CRL checking — there is a `crl_config` whose `work_dir` exists and whose configured CRLs are
+acceptable. No further hypothesis: in particular no combination of valid values panics. -/
+theorem provision_ok (env : Env) (raw : RawCfg) (m : Mode) (hm : parseMode raw.mode = some m)
     (hcrl : ∀ c, raw.crl = some c → ValidCrl env c) (hocsp : ∀ o, raw.ocsp = some o → ValidOcsp env o)
-    (hready : crlEnabled m = true → CrlReady env raw)
-    (hpos : crlEnabled m = true → PositiveInterval env raw) : (loadJSON L env raw).isOk := by
+    (hready : crlEnabled m = true → CrlReady env raw) : (loadJSON L env raw).isOk := by
   rw [Res.isOk_iff]
   -- the effective CRL / OCSP parts
   have hC : ∃ crlP : Option EffCrl, match raw.crl with
@@ -350,42 +356,55 @@ theorem provision_ok_partial (env : Env) (raw : RawCfg) (m : Mode) (hm : parseMo
     cases h6
     obtain ⟨_, a2, a3, _, _, _, a7, _, _⟩ := crlSpec_ok env c ec h7
     refine ⟨by rw [a2]; exact h4, by rw [a3]; exact h5, ?_⟩
-    rcases a7 with ⟨_, h⟩ | ⟨hne, hd⟩
+    rcases a7 with ⟨_, h⟩ | ⟨_, _, hp⟩
     · rw [h]; decide
-    · rcases hpos hce c h1 with he | ⟨d, hd', hp⟩
-      · exact absurd he hne
-      · rw [hd] at hd'; cases hd'; exact hp
+    · exact hp
 
 /-- The same for the Caddyfile form of the settings. -/
-theorem provision_ok_partial_caddyfile (env : Env) (c : Cfg) (m : Mode) (hm : parseMode (jsonOf c).mode = some m)
+theorem provision_ok_caddyfile (env : Env) (c : Cfg) (m : Mode) (hm : parseMode (jsonOf c).mode = some m)
     (hcrl : ∀ k, (jsonOf c).crl = some k → ValidCrl env k) (hocsp : ∀ o, (jsonOf c).ocsp = some o → ValidOcsp env o)
-    (hready : crlEnabled m = true → CrlReady env (jsonOf c))
-    (hpos : crlEnabled m = true → PositiveInterval env (jsonOf c)) :
+    (hready : crlEnabled m = true → CrlReady env (jsonOf c)) :
     (loadCaddyfile Fx env (renderCaddyfile c)).isOk := by
-  have hj := provision_ok_partial env (jsonOf c) m hm hcrl hocsp hready hpos
+  have hj := provision_ok env (jsonOf c) m hm hcrl hocsp hready
   have he := caddyfile_eq_json env c
   cases h1 : loadJSON L env (jsonOf c) <;> rw [h1] at hj he <;> simp [Res.isOk] at hj
   cases h2 : loadCaddyfile Fx env (renderCaddyfile c) <;> rw [h2] at he <;> simp at he
   rfl
 
-/-- **Counterexample to the full statement** (finding): every value is valid, the work directory exists, and
-`Provision` panics — in both syntaxes — because `update_interval 0s` reaches `time.NewTicker`. -/
-theorem nonpositive_interval_panics :
-    let env : Env := { path := fun p => if p = "/w" then .dir else .missing,
-                       dur := fun s => if s = "0s" then some 0 else none, certOk := fun _ => false, crlOk := fun _ => false }
-    let c : Cfg := { crl := some { workDir := some "/w", interval := some "0s" } }
-    loadJSON L env (jsonOf c) = .panic ∧ loadCaddyfile Fx env (renderCaddyfile c) = .panic ∧
-    parseMode (jsonOf c).mode = some .preferOCSP ∧ (∀ k, (jsonOf c).crl = some k → ValidCrl env k) ∧
-    (∀ o, (jsonOf c).ocsp = some o → ValidOcsp env o) ∧ CrlReady env (jsonOf c) := by
-  intro env c
-  refine ⟨by decide, by decide, by decide, ?_, ?_, ?_⟩
-  · intro k hk
-    cases hk
-    refine ⟨by decide, by decide, .inr (by decide), by decide, ?_⟩
-    intro d hd; cases hd
-  · intro o ho; cases ho
-  · exact ⟨_, rfl, by decide, by decide, by decide, by decide⟩
+/-- Never a panic: whatever the settings and the environment, loading ends in a validator or in an error, in both
+syntaxes (the only panic of the model, `time.NewTicker` on a non-positive interval, is unreachable because
+parseUpdateInterval rejects such intervals and the default is positive). -/
+theorem load_never_panics (env : Env) (c : Cfg) :
+    loadJSON L env (jsonOf c) ≠ .panic ∧ loadCaddyfile Fx env (renderCaddyfile c) ≠ .panic := by
+  have hj : loadJSON L env (jsonOf c) ≠ .panic := by
+    rw [loadJSON_closed]; exact provisionSpec_ne_panic env _
+  refine ⟨hj, ?_⟩
+  intro hc
+  have he := caddyfile_eq_json env c
+  rw [hc] at he
+  cases h1 : loadJSON L env (jsonOf c) <;> rw [h1] at he <;> simp at he
+  exact hj h1
 
+/-- `update_interval 0s` (as "-5m": parsable, not positive) is an invalid value: rejected at load in both syntaxes
+(it used to reach `time.NewTicker` and panic). -/
+theorem nonpositive_interval_rejected :
+    let env : Env := { path := fun p => if p = "/w" then .dir else .missing,
+                       dur := fun s => if s = "0s" then some 0 else if s = "-5m" then some (-300000000000) else none,
+                       certOk := fun _ => false, crlOk := fun _ => false }
+    let c (iv : String) : Cfg := { crl := some { workDir := some "/w", interval := some iv } }
+    (∀ iv, iv = "0s" ∨ iv = "-5m" →
+      InvalidValue env (jsonOf (c iv)) ∧
+      loadJSON L env (jsonOf (c iv)) = .error ∧ loadCaddyfile Fx env (renderCaddyfile (c iv)) = .error) := by
+  intro env c iv h
+  rcases h with rfl | rfl
+  · refine ⟨.inr (.inl ⟨_, rfl, .inr (.inr (.inl ⟨by decide, ?_⟩))⟩), by decide, by decide⟩
+    intro d hd
+    have : d = 0 := by simpa [env, c, jsonOf, jsonOfCrl] using hd.symm
+    omega
+  · refine ⟨.inr (.inl ⟨_, rfl, .inr (.inr (.inl ⟨by decide, ?_⟩))⟩), by decide, by decide⟩
+    intro d hd
+    have : d = -300000000000 := by simpa [env, c, jsonOf, jsonOfCrl] using hd.symm
+    omega
 
 /-! ### Concrete instances (non-vacuity) -/
 
